@@ -1,6 +1,7 @@
 package vh
 
 import (
+	"go.amzn.com/lambda/metering"
 	"bytes"
 	"errors"
 	"fmt"
@@ -473,6 +474,50 @@ func (e *Emu) InvokeAsync(payload []byte, o InvokeOpts) *Invocation {
 		close(inv.done)
 	}()
 	return inv
+}
+
+// StandaloneInvoke drives one invocation the way the standalone front end's client does (reserve, wait until
+// initialised, invoke, wait until release) and, when that fails, asks for a reset with the reason the client would
+// give ("failure" / "timeout"). Everything is logged under a caller source like InvokeAsync does.
+func (e *Emu) StandaloneInvoke(payload []byte) (error, *RecWriter) {
+	n := e.callerN.Add(1)
+	src := fmt.Sprintf("caller:%d", n)
+	w := &RecWriter{log: e.Log, src: src}
+	callSeq := e.Log.Add(Event{Src: src, Kind: "call", Op: "invoke", Len: len(payload), Sha: Digest(payload), Extra: map[string]string{"style": "standalone"}})
+	finish := func(err error) (error, *RecWriter) {
+		w.mu.Lock()
+		w.closed = true
+		w.mu.Unlock()
+		x := map[string]string{}
+		if err != nil {
+			x["err"] = err.Error()
+		}
+		e.Log.Add(Event{Src: src, Kind: "ret", Op: "invoke", Ref: callSeq, Len: len(w.Body()), Extra: x})
+		return err, w
+	}
+	if _, err := e.Srv.Reserve("", "", ""); err != nil {
+		return finish(err)
+	}
+	if err := e.Srv.AwaitInitialized(); err != nil {
+		e.Srv.Reset("failure", 2000)
+		return finish(err)
+	}
+	inv := &interop.Invoke{
+		InvokedFunctionArn: "arn:aws:lambda:us-east-1:012345678912:function:" + e.Cfg.FunctionName,
+		Payload:            bytes.NewReader(payload),
+		DeadlineNs:         fmt.Sprintf("%d", metering.Monotime()+e.Cfg.TimeoutMs*1000*1000),
+	}
+	if err := e.Srv.FastInvoke(w, inv, false); err != nil {
+		e.Srv.Reset("failure", 2000)
+		return finish(err)
+	}
+	if _, err := e.Srv.AwaitRelease(); err != nil {
+		e.Log.Add(Event{Src: "drv", Kind: "call", Op: "reset", Extra: map[string]string{"reason": "failure"}})
+		e.Srv.Reset("failure", 2000)
+		e.Log.Add(Event{Src: "drv", Kind: "ret", Op: "reset"})
+		return finish(err)
+	}
+	return finish(nil)
 }
 
 // ErrName maps an Invoke error to a short name.
